@@ -123,11 +123,16 @@ func c09Case(c *rep.Ctx, r c09Replay) {
 	j2 := fsx.NewJail("c09r")
 	defer j2.Remove()
 	var rerr error
+	realTarget := j2.Target
+	if r.MissingTarget {
+		// the real run gets the same kind of target the dry run was given: a directory that does not exist yet
+		realTarget = filepath.Join(j2.Target, "not", "yet", "there")
+	}
 	rpan := sut.Guard(func() {
 		if strings.HasPrefix(r.Route, "mkdir-root-dry") {
-			rerr = gtree.MkdirFromRoot(sut.BuildRoot(f[0]), gtree.WithFileExtensions(r.Exts), gtree.WithTargetDir(j2.Target))
+			rerr = gtree.MkdirFromRoot(sut.BuildRoot(f[0]), gtree.WithFileExtensions(r.Exts), gtree.WithTargetDir(realTarget))
 		} else {
-			rerr = gtree.MkdirFromMarkdown(strings.NewReader(doc), gtree.WithFileExtensions(r.Exts), gtree.WithTargetDir(j2.Target))
+			rerr = gtree.MkdirFromMarkdown(strings.NewReader(doc), gtree.WithFileExtensions(r.Exts), gtree.WithTargetDir(realTarget))
 		}
 	})
 	if rpan != "" {
@@ -146,7 +151,7 @@ func c09Case(c *rep.Ctx, r c09Replay) {
 		return
 	}
 	_ = plain
-	real := fsx.Snapshot(j2.Target).Kinds()
+	real := fsx.Snapshot(realTarget).Kinds()
 	want := ""
 	for _, rt := range m {
 		d, fl := 0, 0
